@@ -73,9 +73,15 @@ func zzState(r *Router[*hnd], m *zzModel) string {
 // zzC17Pre: registrations that are rejected for their method but may leave nodes behind.
 var zzC17Pre = []string{"", "/u/{nm}", "/u/{-id}", "/p/{y:\\d+}/e", "/u/{id}/x"}
 
-// ZZC17(n): n = pre*100000 + setup*10000 + maxMethods*1000 + maxLen of the symbolic probe path.
+// ZZC17(n): n = trace*1000000 + pre*100000 + setup*10000 + maxMethods*1000 + maxLen of the symbolic probe path.
 func ZZC17(n int) {
+	// n >= 1000000: the router has WithTrace, which reserves TRACE; method lists may then name it
+	trace := n >= 1000000
+	n %= 1000000
 	r := zzNewRouter("r")
+	if trace {
+		r = zzNewRouter("r", WithTrace[*hnd](&hnd{id: idTrc}))
+	}
 	m := &zzModel{}
 	if pre := zzC17Pre[n/100000]; pre != "" {
 		p, rt := zzGuard(func() { r.Handle(pre, &hnd{id: 70}, nil, "BOGUS") })
@@ -91,7 +97,11 @@ func ZZC17(n int) {
 	bad, dup := false, false
 	for i := 0; i < nm; i++ {
 		var x string
-		switch c := zzv.Choice("meth", 5); c {
+		nch := 5
+		if trace {
+			nch = 6
+		}
+		switch c := zzv.Choice("meth", nch); c {
 		case 0:
 			x = "GET"
 		case 1:
@@ -100,6 +110,8 @@ func ZZC17(n int) {
 			x = "HEAD"
 		case 3:
 			x = "OPTIONS"
+		case 5:
+			x = "TRACE"
 		default:
 			// an arbitrary method string in single-entry lists, a fixed unknown name in longer ones
 			if nm == 1 {
@@ -108,7 +120,7 @@ func ZZC17(n int) {
 				x = "BOGUS"
 			}
 		}
-		if !zzValidMethod(x) {
+		if !zzValidMethod(x) || (trace && x == "TRACE") {
 			bad = true
 		}
 		if m.handlerID(cand.p, x) != 0 && x != "HEAD" {
@@ -165,7 +177,7 @@ func ZZC17(n int) {
 		return // accepted although ambiguous with one of several routes: dispatch is then unspecified
 	}
 	m.add(cand.p, 50, ms...)
-	zzCheckRoutes("accepted", r, m, false)
+	zzCheckRoutes("accepted", r, m, trace)
 	oa, _ := zzServe(r, zzReq(pm, path))
 	zzExpectDispatch("after-accept", m, path, pm, oa)
 }
